@@ -43,10 +43,13 @@ orc_target_get_by_name (const char *name)
 OrcTarget *
 orc_target_get_default (void)
 {
-  const char *const envvar = _orc_getenv ("ORC_BACKEND");
+  char *const envvar = _orc_getenv ("ORC_BACKEND");
 
   if (envvar != NULL) {
     OrcTarget *const target = orc_target_get_by_name (envvar);
+
+    /* _orc_getenv() returns a copy owned by the caller */
+    free (envvar);
 
     /* an override naming a backend this CPU cannot execute must not become
      * the target of the default compile path */
